@@ -36,4 +36,9 @@ CHECKS = {
   "text": "The (l,s) list is checked exhaustively for every spin triple up to 4 in both tiers; rank/count/entries exhaustively up to spin 5/2 (quick) and 3 (thorough). Restrictions and multi-decay histories are generated search.",
   "note": "Trusted: harness rule (triangle, parity, C-parity), exact Clebsch-Gordan values, numpy SVD / sympy exact rank. User-supplied ls_list is asserted only for sub-lists of the allowed list.",
  },
+ "C15": {
+  "technique": "property-based testing: Hypothesis-drawn resonance parameters and mass points per registered line shape, compared (Re and Im) with numpy re-implementations of the documented formulas, standalone and through the full amplitude interfering with a constant chain; barrier factors L=0..8; sympy denominators times numeric value = 1",
+  "text": "Generated search over models x parameters x mass points (about 2000 cases quick, 50000 thorough). Exploration level; continuous domain sampled, model list and L enumerated by the strategy.",
+  "note": "Trusted: harness re-implementation of each docstring formula; reverse-Bessel reference for barrier factors. Known finding: BWR_LS default fix_bug1=False (recorded, see known_findings.json). Exact zeros of the continued barrier polynomial at q^2<0 are outside the asserted domain.",
+ },
 }
